@@ -489,6 +489,6 @@ package lfs
 //@   modifies fresh, map m.nameMap, map m.nameShaPairs
 
 //@ func NewPointerExtension
-//@   props C01
+//@   props C01 C07
 //@   modifies fresh
-//@   ensures result != nil && result.Name == name && result.Priority == priority && result.Oid == oid
+//@   ensures result != nil && isfresh(result) && result.Name == name && result.Priority == priority && result.Oid == oid
